@@ -83,6 +83,16 @@ Theorem C03_oracle_exact : forall expected obs,
   exists ws pairs, obs = Some ws /\ mapM one_invoke ws = Some pairs /\ Permutation pairs expected.
 Proof. exact c03_ok_iff. Qed.
 
+(* the build-script route (BuildSystem::generate_at_build_time run again and again into one
+   output directory, the source tree changing or not between the runs; a run either rewrites
+   commands.ts, or leaves it on a generation-cache hit, or removes it when no command is
+   left): after EVERY run of EVERY history, whatever the output directory held before, the
+   wrappers of commands.ts are those the specification asks for the tree of that run *)
+Theorem C03_build_history : forall (root : str) (ls : list layout) (st : option (list cmd)),
+  Forall (fun l => layout_ok l = true) ls ->
+  map (map wobs) (build_history root st ls) = map (fun l => map spec_obs (annotated_spec l)) ls.
+Proof. exact build_history_spec. Qed.
+
 (* ---- non-vacuity ---- *)
 Definition ex_fn (name : string) (attrs : list (list str)) : fn_def :=
   {| fn_name := L name; fn_attrs := attrs; fn_async := false; fn_params := [];
@@ -138,6 +148,16 @@ Example C03_ex_patched_rendering :
   = [(L "type", L "Promise<string | null[]>"); (L "b", L "Promise<types.User[][]>");
      (L "c", L "Promise<Record<string, User>>"); (L "d", L "Promise<[Record<string, number>, boolean]>")].
 Proof. vm_compute. reflexivity. Qed.
+(* a history with a cache hit (second run), a regeneration, a run without commands and a
+   return to the first tree; the stale state given at the start is overwritten *)
+Example C03_ex_history :
+  let l1 := [NFile (L "a.rs") (Parsed [RFn (ex_fn "a" [[L "command"]])])] in
+  let l2 := l1 ++ [NFile (L "b.rs") (Parsed [RFn (ex_fn "b" [[L "command"]])])] in
+  let stale := Some [{| c_file := [L "old.rs"]; c_fn := ex_fn "old" [[L "command"]] |}] in
+  build_run (L "src") (build_run (L "src") stale l1) l1 = build_run (L "src") stale l1 /\
+  map (map (fun w => w_invoke w)) (build_history (L "src") stale [l1; l1; l2; []; l1])
+  = [[L "a"]; [L "a"]; [L "a"; L "b"]; []; [L "a"]].
+Proof. vm_compute. split; reflexivity. Qed.
 (* the template text of Model/Pipeline.v for these commands, lexed and parsed by the
    specification parser, reads back as the wrapper records of the abstract model *)
 Example C03_ex_tokens_read_back :
@@ -156,3 +176,4 @@ Print Assumptions C03_unparsable_isolated_layout.
 Print Assumptions C03_root_path_fixed.
 Print Assumptions C03_notutf8_fixed.
 Print Assumptions C03_oracle_exact.
+Print Assumptions C03_build_history.
